@@ -3,6 +3,8 @@ import os
 import random
 import shutil
 
+import numpy as np
+
 from gambit.kmers import KmerSpec
 from gambit.sigs import SignatureArray, AnnotatedSignatures, SignaturesMeta, dump_signatures
 from .. import core, tlc, cli
@@ -12,6 +14,7 @@ from .c14 import make_genome
 
 K1 = (5, 'AT')
 DEF = (11, 'ATGAC')
+K20 = (20, 'AT')
 
 
 def cps(s):
@@ -48,8 +51,12 @@ def setup(tmp, seed):
     env['qids'] = ['qs_a', 'qs,"b"', 7] if False else ['qs_a', 'qs,"b"', 'qs c']
     env['rids'] = [10, 11, 12, 13, 14]
     dump_signatures(os.path.join(tmp, 'q.gs'), AnnotatedSignatures(SignatureArray([W.real_signature(K1, c) for c in qs], ks), env['qids'], SignaturesMeta(id_attr='key')))
-    import numpy as np
+
     dump_signatures(os.path.join(tmp, 'r.gs'), AnnotatedSignatures(SignatureArray([W.real_signature(K1, c) for c in rs], ks), np.array(env['rids']), SignaturesMeta(id_attr='ncbi_id')))
+    # signature files computed with k = 20 (64-bit k-mer indices): the command must use them as they are, whatever its own default k
+    ks20 = KmerSpec(*K20)
+    dump_signatures(os.path.join(tmp, 'q20.gs'), AnnotatedSignatures(SignatureArray([W.real_signature(K20, c) for c in qs], ks20), env['qids'], SignaturesMeta(id_attr='key')))
+    dump_signatures(os.path.join(tmp, 'r20.gs'), AnnotatedSignatures(SignatureArray([W.real_signature(K20, c) for c in rs], ks20), np.array(env['rids']), SignaturesMeta(id_attr='ncbi_id')))
     taxa = [dict(name='T', rank='species', parent=0, thr=0.5, report=True, ncbi_id=1)]
     world = dict(kspec=list(K1), taxa=taxa, key='db', version='1',
                  genomes=[dict(key=f'dbg{i}', desc=f'ref {i}', taxon=1, contigs=c, genbank_acc=None, refseq_acc=None, ncbi_id=None) for i, c in enumerate(rs[:3])])
@@ -94,10 +101,25 @@ def scenarios(env, tmp, tier):
                                both=(pre + ['dist', '--no-progress'] + kargs + qa + [a.replace('--q', '--r') if a.startswith('--q') else ('-r' if a == '-q' else a) for a in qa]) if sq else None)
 
 
+def wide_scenarios(env, tmp):
+    """signature files with 64-bit indices on either or both sides"""
+    qd, rd = os.path.join(tmp, 'qdir'), os.path.join(tmp, 'rdir')
+    q20 = (['--qs', os.path.join(tmp, 'q20.gs')], [('id', i) for i in env['qids']], env['q'])
+    r20 = (['--rs', os.path.join(tmp, 'r20.gs')], [('id', i) for i in env['rids']], env['r'])
+    qf = (sum([['-q', os.path.join(qd, n)] for n in env['qnames']], []), [('path', os.path.join(qd, n)) for n in env['qnames']], env['q'])
+    rf = (sum([['-r', os.path.join(rd, n)] for n in env['rnames']], []), [('path', os.path.join(rd, n)) for n in env['rnames']], env['r'])
+    for name, (qa, ql, qsq), (ra, rl, rsq), sq in (('sigs20/sigs20', q20, r20, False), ('sigs20/files', q20, rf, False), ('files/sigs20', qf, r20, False),
+                                                   ('sigs20/square', q20, (['--square'], None, None), True)):
+        for cores in (1, 3):
+            yield dict(q=name.split('/')[0], r=name.split('/')[1], explicit=False, cores=cores, params=K20,
+                       args=['dist', '--no-progress'] + qa + ra + ['-c', str(cores)], qlab=ql, rlab=ql if sq else rl, qseqs=qsq, rseqs=qsq if sq else rsq,
+                       square=sq, both=(['dist', '--no-progress'] + qa + ['--rs', os.path.join(tmp, 'q20.gs')]) if sq else None)
+
+
 def run_set(ctx, tmp, seed):
     if True:
         env = setup(tmp, seed)
-        scs = list(scenarios(env, tmp, ctx.tier))
+        scs = list(scenarios(env, tmp, ctx.tier)) + list(wide_scenarios(env, tmp))
         jobs = []
         for i, sc in enumerate(scs):
             jobs.append((sc['args'] + ['-o', os.path.join(tmp, f'o{i}.csv')], dict(cwd=tmp)))
